@@ -75,6 +75,7 @@ def run(ctx):
     from . import lazyfact_proofs
 
     note2 = lazyfact_proofs.run(ctx, "C12")
+    note2 += _listify(ctx)
     return note2 + f" configuration-level PyVC of groupby_reduce: {len(idx)} parameter variants ({'covering subset' if ctx.quick else 'all'} of 180), {n} obligations (L-sites `lazy[...]`, in-code asserts, exception types, preconditions of dask_groupby_agg)."
 
 
@@ -98,3 +99,23 @@ def run_plan_obligations(ctx, pid):
             ctx.trust(f"assumed contract: {a}")
     ctx.under_contract("flox.core.groupby_reduce (configuration level: exception types, asserts, plan preconditions)", "proved" if all(o.status == "discharged" for obs, _, _ in results for o in obs if ".lazy[" not in o.name) else "bounded")
     return f" configuration-level PyVC of groupby_reduce: {len(idx)} parameter variants ({'covering subset' if ctx.quick else 'all'} of 180), {n} obligations (in-code asserts, exception types of every feasible path, plan preconditions at the call of dask_groupby_agg)."
+
+
+def _listify(ctx):
+    import vlib.pyvc.prims as P
+
+    from ..contracts import listify as L
+    from ..pyvc.run import add_to_ctx
+
+    orig = P.Prims.register_defaults
+
+    def reg(self):
+        orig(self)
+        L.register_models(self)
+
+    P.Prims.register_defaults = reg
+    try:
+        ex, obs = add_to_ctx(ctx, L.listify_contract(), {})
+    finally:
+        P.Prims.register_defaults = orig
+    return f" listify_groups: {len(obs)} obligations (the labels a block found are handed on as NumPy scalars of the labels' own dtype, one per label, in order)."
